@@ -8,7 +8,7 @@ RULE = ("fixed: every (service type gate/chat/room/unknown) x (method behaviour 
         "notify-shaped, unknown method, unknown group, REGISTERED METHOD UNDER A SPELLING THAT IS NOT REGISTERED (the Go method name, upper case, a capitalised group: handlers are registered under the name function's spelling only - MMisspelt: an unknown method, exactly one error response, the handler is not invoked; request- and notify-shaped methods, requests and notifications, front-local and forwarded, both serializers; 1/12 of the random routes), a successful result with ONLY DEFAULT-VALUED FIELDS (MZero: '{}' under JSON, ZERO BYTES under protobuf - a success, relayed with its flag AND its empty payload), undecodable payload, successful result the serializer cannot encode (+Inf float), successful result whose encoding PANICS (user MarshalJSON dereferencing nil), asynchronous completion (echo / unencodable result / result whose encoding panics, completed in a later turn of the service)) combination once as request and once as notification, "
         "for an unbound routing key and for keys naming chat-1, chat-2, an instance of the wrong type, a missing instance; the six "
         "malformed routes; connect-while-the-front-is-busy followed at once by forwarded requests (F12); the same request id in flight "
-        "twice to different instances; close with requests pending at a back-end; id 2^32-1; BOTH CLIENT SERIALIZERS (OProto switches node/client/impls/config to protobuf for the case - every harness method has a protobuf twin carrying the same argument; the whole behaviour matrix once under protobuf, 1/4 of the random cases); PROTOCOL STATE MACHINE: a second Handshake packet, its ack and heartbeats at any moment of an established connection, with a forwarded request parked / a relayed reply / an asynchronous completion / a time-out produced before the ack, and data packets sent in the handshake state (ignored by the server); SESSION-ID REUSE: every connection is handed an explicit numeric session id through the allocator hook (largest id 2^32-1, the wrap that skips 0, small ids), a connection parks a request at a never-answering back-end handler and closes, a new connection receives the recycled id and uses the same request id, then the time-out arrives; PIPELINED BURST WITH A NON-READING CLIENT: the client stops reading for 1.5 s and pipelines 11000 front-local + 1500 forwarded requests with 4 kB responses (thorough: up to 13000 x 8 kB and 11000 forwarded), >9999 responses pending on one connection (the run tags whether the send queue actually filled: it did), then reads: exactly one response per request id. random: 1-3 connections, 2-60 pipelined "
+        "twice to different instances; close with requests pending at a back-end; id 2^32-1; BOTH CLIENT SERIALIZERS (OProto switches node/client/impls/config to protobuf for the case - every harness method has a protobuf twin carrying the same argument; the whole behaviour matrix once under protobuf, 1/4 of the random cases); UNDECODABLE MESSAGES (HBadMsg: a well-framed Data packet whose message cannot be decoded - gzip flag with a body that is no zlib stream, as request and as notification; a compressed route code in no dictionary; a route length beyond the packet; an invalid message type - the server ends the connection: nothing of it is answered afterwards, earlier answers stay, other connections are undisturbed; a server that keeps the connection is reported as a response under request id 0, which no model produces; in the handshake state the packet is ignored like every data packet); NOTIFY-THEN-GONE (HGone: after a drain the front-ends' goroutines are occupied for 25-45 ms while the client sends 1-6 notifications - front-local, forwarded to room-1 and to the keyed chat instance, notify- and request-shaped methods, asynchronous completion, both serializers - and closes its socket at once: the network side has marked the session closed when the service handles them; each must reach its handler exactly once; 1/3 of the random closes, 1/6 are undecodable messages); PROTOCOL STATE MACHINE: a second Handshake packet, its ack and heartbeats at any moment of an established connection, with a forwarded request parked / a relayed reply / an asynchronous completion / a time-out produced before the ack, and data packets sent in the handshake state (ignored by the server); SESSION-ID REUSE: every connection is handed an explicit numeric session id through the allocator hook (largest id 2^32-1, the wrap that skips 0, small ids), a connection parks a request at a never-answering back-end handler and closes, a new connection receives the recycled id and uses the same request id, then the time-out arrives; PIPELINED BURST WITH A NON-READING CLIENT: the client stops reading for 1.5 s and pipelines 11000 front-local + 1500 forwarded requests with 4 kB responses (thorough: up to 13000 x 8 kB and 11000 forwarded), >9999 responses pending on one connection (the run tags whether the send queue actually filled: it did), then reads: exactly one response per request id. random: 1-3 connections, 2-60 pipelined "
         "client actions (request 50%, notify 18%, set-routing-key 20%, advance clock past the 30 s forward time-out 3%, re-handshake / ack / heartbeat 2%, close 4%), routes "
         "drawn over all types/behaviours incl. malformed, ids incl. duplicates and varint boundaries. Connections get fresh, recycled (50% when a closed one exists) or - rarely - live-clashing (ignored) session-id slots; half of the closes are preceded by a request parked at a silent back-end handler. Every case ends with a drain, a clock "
         "advance and a sentinel round trip on every open connection. Non-trivial = at least one response was received; distinct = distinct op lists.")
@@ -29,6 +29,7 @@ ASSUMPTIONS = [
     "data packets a client sends between a re-handshake and its ack never become requests (session.go processPacket ignores them while status < working): Corr.prep removes them from the history; the harness does send them",
     "a connection in the handshake state cannot answer the driver's sentinel: its drain waits until its send queue is empty and the client stopped receiving (1 ms polls)",
     "the client serializer is a configuration of the whole case (process-wide setting, switched only while nothing is outstanding); a response's payload is compared as a class: a reply of instance i with tag t / no content ('{}' resp. zero bytes) / an error",
+    "an undecodable message is modelled as the close of its connection (Corr.expand: HBadMsg c -> OClose c); HGone is its notifications followed by the close - the driver drains before both, so no request of that connection is outstanding whose response the departing client could miss",
     "time-outs are crossed with the virtual clock and an explicit expiry scan (VerifCheckExpired); the 1 s real timer that normally triggers the scan is not waited for",
 ]
 TECHNIQUE = "Coq proof (one inductive invariant over all interleavings of client operations and message deliveries, refinement to history functions `ledger`/`expected`) + differential correspondence against a real in-process node driven by a raw TCP client"
